@@ -488,6 +488,7 @@ class Config:
     safe_methods: frozenset = frozenset()
     skip_explicit: object = None  # f(frame, raise_node) -> reason | None   (named suppressions)
     strict: bool = True
+    taint_through_mutation: bool = False  # opt-in: `buf.extend(x)` / `lst.append(x)` with untrusted x makes the container untrusted (kind V)
 
 
 class _CachedModel:
@@ -685,6 +686,46 @@ class MayRaise:
         if head in mod.imports:
             return ".".join(mod.imports[head].split(".") + ch.split(".")[1:])
         return ch
+
+
+LOGGING_METHODS = frozenset("debug info warning warn error critical exception log isEnabledFor".split())
+
+
+def _module_logger(eng, mod, name: str, depth: int = 0) -> bool:
+    """Module-level ``name`` of ``mod`` is a ``logging.Logger``: bound only at module level, every binding being
+    ``logging.getLogger(..)`` / ``getLogger(..)`` (imported from logging) / ``<module logger>.getChild(..)``, or imported from a
+    repository module where that holds."""
+    cache = eng.__dict__.setdefault("_logger_names", {})
+    k = (mod.rel, name)
+    if k in cache:
+        return cache[k]
+    cache[k] = False  # cycles
+    ok = False
+    if depth <= 4:
+        if name in mod.imports:
+            target = mod.imports[name].split(".")
+            m = eng.model.module_by_dotted(".".join(target[:-1])) if len(target) > 1 else None
+            ok = m is not None and m is not mod and _module_logger(eng, m, target[-1], depth + 1)
+        else:
+            vals = mod.assigns(name)
+            # every binding of the global: module-scope stores (functions / classes have their own scope) + `global name` anywhere
+            stores = sum(1 for n in _own_nodes(mod.tree) if isinstance(n, ast.Name) and n.id == name and isinstance(n.ctx, (ast.Store, ast.Del)))
+            stores += sum(1 for n in ast.walk(mod.tree) if isinstance(n, ast.Global) and name in n.names)
+            ok = bool(vals) and stores == len(vals)
+            for v in vals:
+                if not ok:
+                    break
+                f = v.func if isinstance(v, ast.Call) else None
+                if isinstance(f, ast.Attribute) and f.attr == "getLogger":
+                    ok = eng.resolved_dotted(mod, f) == "logging.getLogger"
+                elif isinstance(f, ast.Name):
+                    ok = mod.imports.get(f.id) == "logging.getLogger"
+                elif isinstance(f, ast.Attribute) and f.attr == "getChild" and isinstance(f.value, ast.Name):
+                    ok = _module_logger(eng, mod, f.value.id, depth + 1)
+                else:
+                    ok = False
+    cache[k] = ok
+    return ok
 
 
 def _envkey(env: dict):
@@ -1447,6 +1488,27 @@ class _Frame:
             self.fn._locals_cache = loc
         return name in loc
 
+    def is_logger(self, e, _depth=0) -> bool:
+        """``e`` denotes the stdlib ``logging`` module or a ``logging.Logger``: the imported module itself, ``logging.getLogger(..)``,
+        ``<logger>.getChild(..)``, or a module-level name (of this module, or imported from a repository module) whose every binding in
+        its module is such an expression.  Locals, attributes of objects and anything rebound elsewhere are not loggers."""
+        if _depth > 4:
+            return False
+        mod = self.mod
+        if isinstance(e, ast.Call) and isinstance(e.func, ast.Attribute):
+            if e.func.attr == "getLogger":
+                return self.eng.resolved_dotted(mod, e.func) == "logging.getLogger" and not self._is_local(attr_chain(e.func).split(".")[0])
+            if e.func.attr == "getChild":
+                return self.is_logger(e.func.value, _depth + 1)
+            return False
+        if isinstance(e, ast.Call) and isinstance(e.func, ast.Name):
+            return mod.imports.get(e.func.id) == "logging.getLogger" and not self._is_local(e.func.id)
+        if not isinstance(e, ast.Name) or self._is_local(e.id):
+            return False
+        if mod.imports.get(e.id) == "logging":
+            return True
+        return _module_logger(self.eng, mod, e.id, _depth)
+
     def _method_kind(self, f):
         decs = decorators(f)
         if "staticmethod" in decs:
@@ -1640,6 +1702,10 @@ class _Frame:
                 return allk if kind == "join" else (kind if tainted else None)
         if not tainted:
             return None
+        if isinstance(f, ast.Attribute) and f.attr in LOGGING_METHODS and self.is_logger(f.value):
+            # logging.debug(...) / <module logger>.debug("...%r", untrusted): the arguments were evaluated above; the logging package
+            # formats lazily and swallows formatting errors (Handler.handleError only prints), the call returns None
+            return None
         if eng.cfg.strict:
             raise AnalysisError(
                 f"mayraise: call on untrusted data that is neither resolved nor in the tables: {self.mod.rel}::{self.fn._qual} `{norm(call)[:90]}`"
@@ -1726,6 +1792,9 @@ class _Frame:
         if meth in ("index", "remove") and (recv_kind or argk):
             self.add("ValueError", call, f".{meth}() on untrusted content")
             return "V"
+        if self.eng.cfg.taint_through_mutation and argk and meth in ("extend", "append", "appendleft", "add", "update", "insert", "write") \
+                and isinstance(f.value, (ast.Name, ast.Attribute)) and attr_chain(f.value):
+            self.bind(f.value, join(recv_kind, "V"))  # the container now holds untrusted content (flow-insensitive, settles over the passes)
         if meth in SAFE_METHODS or meth in self.eng.cfg.safe_methods:
             if recv_kind == "A" and meth in ("get", "items", "keys", "values", "copy", "setdefault"):
                 return "A"
